@@ -137,6 +137,16 @@ class Receive(WireUnit):
         self.props = ("C08", "C20") if error else ("C06", "C20")
         self.name = "%s response[%d bindings, %s]" % (family, k, "error-status != 0" if error else "error-status == 0")
 
+    def witness(self, ob, model):
+        """C08 obligations: the counter-model's status and index, replayed as an agent answer to a multiget of k OIDs"""
+        if not ob.name.startswith("C08/"):
+            return None
+        from pyvc.vu import model_values
+        mv = model_values(model)
+        if "error_status!0" not in mv:
+            return None
+        return {"kind": "err", "status": mv["error_status!0"], "index": mv.get("error_index!0", 0), "k": max(1, self.k), "op": "multiget"}
+
     def run(self, interp):
         ctx, rt = interp.ctx, self.rt
         creds = self.creds(interp, self.family)
